@@ -190,6 +190,7 @@ PROPS = {
     },
     "C09": {
         "sub": "c09",
+        "lean_modules": ["DatamonVerif.Props.C09", "DatamonVerif.Props.C09Crash"],
         "trivial": r"paths=-$",
         "level_text": "Proof: C09_create_unique (any number of creators of one name, every order of their single atomic no-overwrite Put: exactly one "
                       "ok, the stored descriptor is the winner's), C09_delete_exact (descriptor, every visible bundle with all its file lists, every "
